@@ -594,6 +594,32 @@ impl Ctx {
                     self.put(d, n);
                 }
             }
+            "CloneFrom" => {
+                // slot s becomes a clone of slot d (its source)
+                let src: *const H = match &self.slots[d] {
+                    Some(h) => h,
+                    None => std::ptr::null(),
+                };
+                let dst: *mut H = match self.slots[s].as_mut() {
+                    Some(h) => h,
+                    None => std::ptr::null_mut(),
+                };
+                if src.is_null() || dst.is_null() {
+                    bad!(self, "[harness] CloneFrom on empty slot");
+                } else {
+                    self.call(|| unsafe {
+                        match (&mut *dst, &*src) {
+                            (H::ArcA(x), H::ArcA(y)) => x.clone_from(y),
+                            (H::ArcB(x), H::ArcB(y)) => x.clone_from(y),
+                            (H::OffA(x), H::OffA(y)) => x.clone_from(y),
+                            (H::OffB(x), H::OffB(y)) => x.clone_from(y),
+                            (H::Uni(x), H::Uni(y)) => x.clone_from(y),
+                            (H::Dyn(x), H::Dyn(y)) => x.clone_from(y),
+                            _ => crate::payload::harness_bug("CloneFrom on wrong kinds"),
+                        }
+                    });
+                }
+            }
             "Drop" => {
                 if let Some(h) = self.take(s) {
                     self.call(move || match h {
@@ -1199,6 +1225,9 @@ impl Ctx {
             if d != 1 {
                 bad!(self, "[drain] drain: object {} destroyed {} time(s) by the time every handle is gone", id - self.id0 + 1, d);
             }
+        }
+        if alloc::overruns() > 0 {
+            bad!(self, "[overrun] {} block(s) were written past their end (red zone damaged)", alloc::overruns());
         }
         for r in alloc::table() {
             if r.live || r.frees != 1 {
